@@ -19,8 +19,8 @@ FORKS = ["phase0", "altair", "bellatrix", "capella", "deneb", "electra"]
 FAMILY_FINDINGS = ssz.FAMILY_FINDINGS
 
 TIERS = {
-    "quick": dict(behaviours=60, steps=10, advance=2, nvals=3, mc_steps=3, mc_vals=1),
-    "thorough": dict(behaviours=500, steps=12, advance=3, nvals=4, mc_steps=4, mc_vals=2),
+    "quick": dict(behaviours=150, steps=10, advance=2, nvals=3, mc_steps=3, mc_vals=1),
+    "thorough": dict(behaviours=1200, steps=12, advance=3, nvals=4, mc_steps=4, mc_vals=1),
 }
 
 
